@@ -188,7 +188,9 @@ def check_identifier(x: str, res: Result, naming, bp):
         res.violation("total", ["pythonize_enum_member_name", sh, "raised:" + type(e).__name__], f"{x!r}: {e!r}", w)
     # members whose remainder after the stripped enum-name prefix needs the guard itself (digit first, keyword)
     for enum_name, prefix in (("Color", "COLOR_"), ("HTTPStatus", "HTTP_STATUS_"), ("Version", "VERSION_")):
-        for member in (prefix + "1" + x.upper(), prefix + x, prefix + x.upper() + "_2_0", prefix + "_" + x):
+        # (value names need not be upper case: the prefix / the remainder in lower and mixed case as well)
+        for member in (prefix + "1" + x.upper(), prefix + x, prefix + x.upper() + "_2_0", prefix + "_" + x,
+                       prefix.lower() + x.lower(), prefix.lower() + x, prefix.title() + x.lower(), prefix + x.lower()):
             try:
                 y = naming.pythonize_enum_member_name(member, enum_name)
             except Exception as e:
@@ -197,7 +199,7 @@ def check_identifier(x: str, res: Result, naming, bp):
             res.counters["enum_member_names"] += 1
             if not ident_ok(y):
                 rem = member[len(prefix):]
-                cls_ = "remainder-starts-with-digit" if rem[:1].isdigit() else ("remainder-is-keyword" if keyword.iskeyword(rem) else "other")
+                cls_ = "remainder-starts-with-digit" if rem[:1].isdigit() else ("remainder-is-keyword" if keyword.iskeyword(rem) or keyword.iskeyword(rem.lower()) else "other")
                 res.violation("safe", ["pythonize_enum_member_name", cls_, "not-an-identifier"], f"member {member!r} of enum {enum_name} -> {y!r}", w)
     # (b) keys map back
     try:
